@@ -379,6 +379,11 @@ pub fn build(wx: &WX, log: &Log, cat: &Rc<Cat>) -> DynW {
 #[derive(Clone, Copy, Debug, PartialEq)]
 pub enum Outc { Pass, Skip, Amb, Panic }
 
+thread_local! {
+    /// focus mode of the `fail_on_skipped` cases: most non-passing steps are Skipped
+    pub static SKIP_BIAS: std::cell::Cell<bool> = const { std::cell::Cell::new(false) };
+}
+
 /// One canonical attempt (what `Executor::run_scenario` emits), chosen randomly.
 /// Returns (events, failed).
 pub fn gen_attempt(
@@ -409,7 +414,8 @@ pub fn gen_attempt(
             push(v, mk(ARes::Started));
             if logs && rng.chance(1, 6) { push(v, ASc::Log(rng.below(5))); }
             let o = if rng.chance(p_fail, 20) {
-                *rng.pick(&[Outc::Skip, Outc::Amb, Outc::Panic, Outc::Panic])
+                if SKIP_BIAS.with(std::cell::Cell::get) { *rng.pick(&[Outc::Skip, Outc::Skip, Outc::Skip, Outc::Panic]) }
+                else { *rng.pick(&[Outc::Skip, Outc::Amb, Outc::Panic, Outc::Panic]) }
             } else { Outc::Pass };
             match o {
                 Outc::Pass => push(v, mk(ARes::Passed)),
@@ -637,14 +643,34 @@ fn directed(idx: usize) -> Option<(Vec<FeatSpec>, Vec<AEv>)> {
 
 fn gen_case(rng: &mut Rng, canonical: bool, force: Option<fn(&mut Rng, &mut usize) -> WX>, mon: Mon, idx: usize) -> Case {
     let dir = if mon == Mon::None { None } else { directed(idx) };
-    let specs = match &dir { Some((s, _)) => s.clone(), None => gen_catalog_specs_twins(rng, 3) };
-    let cat = Rc::new(Cat::new(&specs));
+    let mut specs = match &dir { Some((s, _)) => s.clone(), None => gen_catalog_specs_twins(rng, 3) };
     let mut nl = 0;
     let wx = match force {
         Some(_) if dir.is_some() => { nl += 1; WX::Summ(Box::new(WX::Leaf(nl))) }
         Some(f) => f(rng, &mut nl),
         None => { let d = rng.range(1, 3); gen_wx(rng, d, &mut nl) }
     };
+    // focus mode for `fail_on_skipped`: `@allow.skipped` on exactly ONE level (feature, rule or
+    // scenario) per feature — or nowhere —, and streams in which most non-passing steps are Skipped
+    let fos_focus = dir.is_none() && has_fos(&wx) && rng.chance(1, 2);
+    if fos_focus {
+        for f in specs.iter_mut() {
+            let level = rng.below(4);
+            let fix = |tags: &mut Vec<String>, on: bool| {
+                tags.retain(|t| t != "allow.skipped");
+                if on { tags.push("allow.skipped".to_owned()); }
+            };
+            fix(&mut f.tags, level == 0);
+            for sc in &mut f.scens { let on = level == 2 && rng.chance(1, 2); fix(&mut sc.tags, on); }
+            for r in &mut f.rules {
+                let on = level == 1 && rng.chance(1, 2);
+                fix(&mut r.tags, on);
+                for sc in &mut r.scens { let on = level == 2 && rng.chance(1, 2); fix(&mut sc.tags, on); }
+            }
+        }
+    }
+    SKIP_BIAS.with(|b| b.set(fos_focus));
+    let cat = Rc::new(Cat::new(&specs));
     let cut = rng.chance(1, 6);
     let evs = if let Some((_, e)) = dir { e }
         else if wx.has_norm() {
@@ -653,6 +679,7 @@ fn gen_case(rng: &mut Rng, canonical: bool, force: Option<fn(&mut Rng, &mut usiz
             crate::fam_norm::gen_contract_stream(rng, &cat, sticky)
         }
         else if canonical { gen_canonical_stream(rng, &cat, cut) } else { gen_arbitrary_stream(rng, &cat) };
+    SKIP_BIAS.with(|b| b.set(false));
     let mut ops: Vec<POp> = vec![];
     for e in evs {
         if wx.arb() && rng.chance(1, 25) { ops.push(POp::Write(rng.below(5))); }
@@ -731,8 +758,10 @@ pub fn gen_summ(rng: &mut Rng, idx: usize) -> Case {
             _ => leaf,
         };
         let s = WX::Summ(Box::new(inner));
-        match rng.below(4) {
+        match rng.below(6) {
             0 => WX::Fos(*rng.pick(&['d', 'a']), Box::new(s)),
+            // `.summarized().repeat_*()`: events replayed after run-Finished reach `Summarize` again
+            1 | 2 => WX::Rep(*rng.pick(&['s', 'f', 'f', 'a']), Box::new(s)),
             _ => s,
         }
     }
